@@ -7,6 +7,19 @@ ROOT = os.path.dirname(os.path.abspath(__file__))
 
 # id -> (technique, level text, level note)
 CLAIMED = {
+    "C01": ("property-based testing (rapid) + deterministic structured grid; oracle = independent CashAddr/Base58Check "
+            "reference encoder pinned to spec vectors + decode round-trip of every rendering",
+            "Generated-input search over (address kind x network x payload) with a structured-hash grid for every kind x net "
+            "cell; each case is compared with a reference encoder written from the specification and round-tripped through "
+            "DecodeAddress in four renderings.",
+            "Trusts crypto/sha256, x/crypto/ripemd160 and bchec point multiplication (used to make valid public keys). "
+            "Sampling: 2^160 / 2^256 hashes are not enumerated."),
+    "C02": ("property-based testing (rapid) with constructive generators (valid checksum over arbitrary 5-bit payloads, "
+            "Base58Check over all version bytes, hostile public-key hex); oracle = strict reference acceptor + canonical "
+            "re-encoding + network membership table",
+            "Generated-input search: every string is decoded on all six networks; acceptance must imply canonical re-encoding, "
+            "agreement with a strict reference acceptor written from the CashAddr/Base58Check/SEC1 rules, and correct IsForNet.",
+            "Only accept => conditions are asserted (completeness is C01). Trusts math/big and crypto/sha256."),
     "C07": ("property-based testing (rapid) + exhaustive small-scope enumeration against independent "
             "reference codecs (long-division Base58, BIP173 reference, bit-stream model) and an argument-purity canary",
             "Generated-input search: exhaustive over byte strings <=2 / alphabet strings <=3 / all byte strings <=2 (3 thorough), "
